@@ -20,3 +20,10 @@ package metrics
 //@     modifies nothing
 //@     invariant -1 <= rangeindex && rangeindex < len(c.history)
 //@     invariant last != nil ==> last.Delta != nil && last.TimeUnixMilli != nil
+
+//@ // Window query as seen by the quota check: its value is not constrained here (roll-up
+//@ // conservation is a separate obligation); each query is counted in ghost ndelta.
+//@ func (c *Counter) DeltaBetween(t1 time.Time, t2 time.Time) (r int64)
+//@   trusted time-series lookup (sort.Search over the history); only the fact that a query was made is recorded
+//@   modifies ghost(ndelta)
+//@   ensures ghost(ndelta) == old(ghost(ndelta)) + 1
